@@ -144,6 +144,83 @@ fn judge_dt(rec: &mut Rec, i: i128, o: i32) {
     }
 }
 
+/// "every … formatted field equals that of the instant shifted by the offset" — for every symbol in whatever company
+/// (random small sets of symbols, any widths, any order), and for the RFC 3339 writer at every precision.  Differential:
+/// the offset-carrying value and the independently built offset-free value of instant+offset get the *same* pattern.
+fn judge_dt_company(rec: &mut Rec, rng: &mut Rng, i: i128, o: i32) {
+    use crate::model::fmt_spec::Kind;
+    rec.eval();
+    let cls = date_shift_class(i, o);
+    rec.bin(cls);
+    rec.api("DateTime::format (fields in random company)");
+    rec.api("DateTime::format_rfc3339");
+    rec.nontrivial(hash_i128s(&[i, o as i128, 0xC0]));
+    let local = i + o as i128 * NS;
+    let Some((base, _)) = sane_value(i, 0) else {
+        rec.bin(SKIP_START);
+        return;
+    };
+    let Some((e, _)) = sane_value(local, 0).filter(|(_, so)| so.local.is_some()) else {
+        rec.bin("skipped/shifted-instant-not-constructible-or-not-trustworthy");
+        return;
+    };
+    let toks = super::fmtctx::company(rng, Kind::DateTime, &[], false);
+    let sep = *rng.pick(&["|", " ", "/", "", "-", "T", "'at'"]);
+    let mut p = String::new();
+    for (k, (c, w)) in toks.iter().enumerate() {
+        if k > 0 {
+            p.push_str(sep);
+        }
+        for _ in 0..*w {
+            p.push(*c);
+        }
+    }
+    let syms: String = { let mut v: Vec<char> = toks.iter().map(|t| t.0).collect(); v.sort(); v.into_iter().collect() };
+    rec.bin(if toks.len() == 1 { "company/one-symbol-alone" } else if !toks.iter().any(|t| "yqMwdDe".contains(t.0)) { "company/no-calendar-field" } else if !toks.iter().any(|t| "abhHKkmsn".contains(t.0)) { "company/no-clock-field" } else { "company/calendar-and-clock-fields" });
+    let wit = |obs: Value| json!({"instant_utc": show(i), "offset": o, "model_local": show(local), "class": cls, "pattern": p, "observed": obs});
+    let r = trap(|| {
+        let x = base.set_offset(Offset::Fixed(o));
+        let precs = [astrolabe::Precision::Seconds, astrolabe::Precision::Centis, astrolabe::Precision::Millis, astrolabe::Precision::Micros, astrolabe::Precision::Nanos];
+        let rx: Vec<String> = precs.iter().map(|pr| x.format_rfc3339(pr.clone())).collect();
+        let re: Vec<String> = precs.iter().map(|pr| e.format_rfc3339(pr.clone())).collect();
+        (x.format(&p), e.format(&p), rx, re, x.format("XXX"))
+    });
+    match r {
+        Err(pn) => rec.violation(format!("C10|datetime|format-in-company/format_rfc3339|panic|{},{}", pn.class, pn.site()), || wit(pn.to_json())),
+        Ok((fx, fe, rx, re, zone)) => {
+            if fx != fe {
+                rec.violation(format!("C10|datetime|format|not-the-shifted-instant's-fields|symbols={}", syms), || wit(json!({"format of the value carrying the offset": fx, "format of the offset-free value of instant+offset": fe})));
+            }
+            // year 0001–9999 only (RFC 3339's domain; outside it the year field has another shape, C13 does not apply)
+            let f = fields(local);
+            if (1..=9999).contains(&f.year) {
+                rec.bin("rfc3339/fields-compared");
+                for k in 0..rx.len() {
+                    // date-time part: everything before the zone designator
+                    let cut = |s: &str| -> Option<(String, String)> {
+                        let t = s.find('T')?;
+                        let z = s[t..].find(|c| c == 'Z' || c == '+' || c == '-')? + t;
+                        Some((s[..z].to_string(), s[z..].to_string()))
+                    };
+                    match (cut(&rx[k]), cut(&re[k])) {
+                        (Some((dx, zx)), Some((de, _))) => {
+                            if dx != de {
+                                rec.violation(format!("C10|datetime|format_rfc3339|not-the-shifted-instant's-fields|offset-{}", if o % 60 != 0 { "with-seconds" } else { "whole-minutes" }), || wit(json!({"precision_index": k, "format_rfc3339 of the value carrying the offset": rx[k], "of the offset-free value of instant+offset": re[k]})));
+                            } else if zx != zone {
+                                rec.violation("C10|datetime|format_rfc3339|zone-designator-differs-from-XXX".to_string(), || wit(json!({"format_rfc3339": rx[k], "format(\"XXX\")": zone})));
+                            }
+                        }
+                        _ => rec.violation("C10|datetime|format_rfc3339|no-date-time/zone-split".to_string(), || wit(json!({"format_rfc3339": rx[k], "reference": re[k]}))),
+                    }
+                }
+            }
+        }
+    }
+    if rec.want_sample() {
+        rec.sample(|| wit(json!("(see verdict)")));
+    }
+}
+
 /// "set_offset leaves the instant (timestamp, ordering, differences) unchanged" for TWO different instants: every
 /// relation between a and b reads the same whether or not the two carry (different) offsets.  Relative — no model.
 fn judge_dt_pair(rec: &mut Rec, i: i128, j: i128, o1: i32, o2: i32) {
@@ -332,6 +409,16 @@ pub fn run(ctx: &Ctx) -> PropResult {
         };
         judge_dt(rec, i, super::c09::gen_c09_offset(rng, i));
     }));
+    wls.push(Workload::cases("fields_in_random_company_and_rfc3339", ctx.count(250_000, 4_000_000), |rec, _, rng| {
+        let i = match rng.below(4) {
+            0 => super::c09::gen_c09_instant(rng).clamp(MIN_INSTANT + D, MAX_INSTANT - D),
+            // within a day of 0001-01-01 / of a year end: where the offset carries the local reading across a field boundary
+            1 => *rng.pick(&[0i128, cal::days_from_civil(2023, 1, 1) as i128 * D, cal::days_from_civil(-4, 1, 1) as i128 * D, cal::days_from_civil(2024, 3, 1) as i128 * D, cal::days_from_civil(10_000, 1, 1) as i128 * D, cal::days_from_civil(1, 1, 1) as i128 * D]) + rng.range_i128(-D, D),
+            _ => gen_instant(rng, 1).0,
+        };
+        let o = super::c09::gen_c09_offset(rng, i);
+        judge_dt_company(rec, rng, i, o);
+    }));
     wls.push(Workload::cases("pairs_under_different_offsets", ctx.count(60_000, 1_000_000), |rec, _, rng| {
         let p = super::pairs::gen_pair(rng);
         let (lo, hi) = (MIN_INSTANT + 2 * D, MAX_INSTANT - 2 * D);
@@ -383,11 +470,11 @@ pub fn run(ctx: &Ctx) -> PropResult {
     let mut meta = PropMeta::default();
     meta.exhaustive = true;
     meta.rule = format!(
-        "ALL 172 799 offsets x {} stratified instants (era boundary, leap day, year end, range ends ∓1 day, month ends, end-of-day times) + random (instant, offset) pairs incl. the offsets that carry the local date across midnight; per case: set_offset keeps instant/timestamp/==/cmp/*_since/duration, get_offset, all 11 getters and format(\"{}\") equal the model fields of instant+offset, as_offset keeps the displayed fields and moves the instant by −offset. Time: all offsets x {} times (wrap-around both ways). Time additionally at stored times whose local reading is exactly midnight ± 1 ns for each offset; random API walks with judged set_offset/as_offset steps. Offset::from_seconds over every integer in −86 420..=86 420 + extremes; from_hms grids; resolve/resolve_hms return what was given. Non-trivial = the local date differs from the UTC date or the offset has seconds (DateTime); every Time/constructor case. Distinct by input hash. (exhaustive over the offset domain, sampled over instants) as_offset is also applied to receivers that already carry an offset (the same one and a different one): the instant must move by minus the new offset whatever the receiver carried. to_string() is compared with the shifted value's as well; relations of TWO instants (==, cmp, all *_since, duration_between, timestamps) read the same before and after attaching different offsets, half of the pairs closer together than the offsets differ.",
+        "Fields in random company: the value carrying the offset and the independently built offset-free value of instant+offset are formatted with the same pattern of 1–7 distinct symbols (any widths, any order, several separators, each symbol also alone) and must print the same; format_rfc3339 at all five precisions must print the date-time of instant+offset (seconds of the offset included) and the zone designator that XXX prints (years 0001–9999). ALL 172 799 offsets x {} stratified instants (era boundary, leap day, year end, range ends ∓1 day, month ends, end-of-day times) + random (instant, offset) pairs incl. the offsets that carry the local date across midnight; per case: set_offset keeps instant/timestamp/==/cmp/*_since/duration, get_offset, all 11 getters and format(\"{}\") equal the model fields of instant+offset, as_offset keeps the displayed fields and moves the instant by −offset. Time: all offsets x {} times (wrap-around both ways). Time additionally at stored times whose local reading is exactly midnight ± 1 ns for each offset; random API walks with judged set_offset/as_offset steps. Offset::from_seconds over every integer in −86 420..=86 420 + extremes; from_hms grids; resolve/resolve_hms return what was given. Non-trivial = the local date differs from the UTC date or the offset has seconds (DateTime); every Time/constructor case. Distinct by input hash. (exhaustive over the offset domain, sampled over instants) as_offset is also applied to receivers that already carry an offset (the same one and a different one): the instant must move by minus the new offset whatever the receiver carried. to_string() is compared with the shifted value's as well; relations of TWO instants (==, cmp, all *_since, duration_between, timestamps) read the same before and after attaching different offsets, half of the pairs closer together than the offsets differ.",
         per, PATTERN, tper
     );
     meta.required_bins = vec![
-        "pair/relations-unchanged-by-offsets",
+        "pair/relations-unchanged-by-offsets", "company/one-symbol-alone", "company/no-calendar-field", "company/no-clock-field", "company/calendar-and-clock-fields", "rfc3339/fields-compared",
         "shift/across-0001-01-01", "shift/across-year-end", "shift/across-month-end", "shift/across-midnight", "shift/same-date",
         "offset/with-seconds", "offset/with-minutes", "offset/whole-hours", "time/wraps-below-midnight", "time/wraps-past-midnight", "time/no-wrap",
         "offset-ctor/accept", "offset-ctor/reject", "walk/with-judged-steps", "time/local-reading-exactly-midnight",
